@@ -50,8 +50,12 @@ impl<T: Value> ExpertEdge for Edge<T> {
     fn on_change(&self) {
         let mut handler = self.on_change.borrow_mut();
         if let Some(h) = &mut *handler {
+            // When an edge is linked the child may not have been computed yet (or may be
+            // invalid). It will fire the callback through child_changed once it has a value.
             let v = self.child.node.value_as_ref();
-            h(v.as_ref().unwrap());
+            if let Some(v) = v.as_ref() {
+                h(v);
+            }
         }
     }
     fn packed(&self) -> NodeRef {
